@@ -437,6 +437,12 @@ func (e *Exec) tryMerge(a, b *State) (*State, bool) {
 	if b.steps > m.steps {
 		m.steps = b.steps
 	}
+	if b.hardOps > m.hardOps {
+		m.hardOps = b.hardOps
+	}
+	if b.assumes > m.assumes {
+		m.assumes = b.assumes
+	}
 	for g, id := range b.globals {
 		if _, ok := m.globals[g]; !ok {
 			m.globals[g] = id
